@@ -50,6 +50,7 @@ type Model struct {
 	evLang      string // language carried by the context of the running request
 	// FreshEngine: every request is served by a newly created engine (persisted operation)
 	FreshEngine bool
+	firstDone   bool // the pre-VM function of this engine has run (it runs once per engine)
 
 	// render state of the current segment
 	mapped    []string
@@ -291,9 +292,33 @@ func (m *Model) refresh(p *Pred, sym, input string) (string, *stepErr) {
 	return r.Content, nil
 }
 
+// first models Engine.WithFirst for a side-effect free "_first" function (no flags, no errors; the only kind the
+// model-based checks install): it is called once per engine, before the session's code, with the request's input
+// and the language of the session as it was saved; its value goes nowhere. The pre-VM run consumes LANG and ends
+// in a HALT.
+func (m *Model) first(p *Pred, input string) {
+	f := m.A.Funcs["_first"]
+	if !m.Cfg.First || f == nil || (m.firstDone && !m.FreshEngine) {
+		return
+	}
+	m.firstDone = true
+	if m.Flags[fTERMINATE] {
+		return // not modelled: the checks that install a first function do not terminate sessions
+	}
+	m.Calls["_first"]++
+	p.Events = append(p.Events, Ev{Kind: "call", Sym: "_first", Lang: m.Lang, Input: input, LangUnknown: m.LangUnknown})
+	m.Flags[fLANG] = false
+	m.Flags[fINMATCH] = false
+	m.Flags[fWAIT] = true
+	m.Flags[fDIRTY] = false
+}
+
 // Request predicts one request (persisted-engine semantics).
 func (m *Model) Request(input string) *Pred {
 	p := &Pred{}
+	if len(input) <= 255 {
+		m.first(p, input)
+	}
 	if Refuses(input) {
 		p.Refused = true
 		p.ExecErr = true
